@@ -41,8 +41,10 @@ Inductive tree := Tree (tk : tok) (allof : list bytes) (kids : list (option byte
 
 (* where a schema is used *)
 Inductive ukind :=
-| UPath | UQuery | UReqHeaders | UReqBody | URespHeaders | URespBody   (* HTTP: visited by ProcessAllOf *)
-| URpcParams | URpcResult.                                             (* JSON-RPC: NOT visited (no code for them) *)
+| UPath | UQuery | UReqHeaders | UReqBody | URespHeaders | URespBody   (* HTTP *)
+| URpcParams | URpcResult.                                             (* JSON-RPC *)
+
+Definition is_rpc (k : ukind) : bool := match k with URpcParams | URpcResult => true | _ => false end.
 
 Definition ukind_eqb (a b : ukind) : bool :=
   match a, b with
@@ -282,9 +284,12 @@ Section Process.
       match get st sc with
       | None => RPanic "nil dereference: sc.TokenType"
       | Some n =>
-        if negb (tok_eqb (n_tok n) TObject) then ROk st else         (* arrays are NOT descended into *)
-        (* for _, v := range sc.Children: the slice is read once, before the loop *)
+        (* if sc.TokenType != object && sc.TokenType != array { return nil } *)
+        if negb (tok_eqb (n_tok n) TObject) && negb (tok_eqb (n_tok n) TArray) then ROk st else
+        (* for _, v := range sc.Children: the slice is read once, before the loop; array items too *)
         rbind (fold_res (fun st1 c => process f st1 c) (n_children n) st) (fun st1 =>
+        (* if sc.TokenType != object { return nil }: TokenType is never written *)
+        if negb (tok_eqb (n_tok n) TObject) then ROk st1 else
         match n_allof n with
         | [] => ROk st1                                              (* rule, ok := sc.Rules.Get("allOf"); !ok *)
         | names =>
@@ -299,7 +304,8 @@ End Process.
    WITHOUT consulting or setting processedByAllOf), then base-url variables (none can exist: the
    only writer of Server.BaseUrlVariables is commented out in catalog/setters.go), raw path
    variables, then — each a full pass over the interactions in catalog order, HTTP interactions
-   only — query, request headers, request body, response headers, response bodies. *)
+   only — query, request headers, request body, response headers, response bodies; last
+   (processJsonRpcAllOf) one pass over the JSON-RPC interactions: Params, then Result of each. *)
 Definition phases : list ukind := [UPath; UQuery; UReqHeaders; UReqBody; URespHeaders; URespBody].
 
 (* the schemas numbered for uut: type i -> i, use site j -> (number of types) + j *)
@@ -319,10 +325,18 @@ Definition process_phase (fuel : nat) (types : list (bytes * option id)) (uses :
               if ukind_eqb (fst (snd e)) k then process types (fst e) fuel st1 (snd (snd e)) else ROk st1)
            uses st.
 
+(* the use sites are listed in document order: the Params of a method stands before its Result *)
+Definition process_rpc (fuel : nat) (types : list (bytes * option id)) (uses : list (nat * (ukind * id)))
+           (st : state) : res state :=
+  fold_res (fun st1 (e : nat * (ukind * id)) =>
+              if is_rpc (fst (snd e)) then process types (fst e) fuel st1 (snd (snd e)) else ROk st1)
+           uses st.
+
 Definition process_all (fuel : nat) (types : list (bytes * option id)) (uses : list (ukind * id))
            (st : state) : res state :=
   rbind (process_types fuel types st) (fun st1 =>
-  fold_res (process_phase fuel types (number_from (List.length types) uses)) phases st1).
+  rbind (fold_res (process_phase fuel types (number_from (List.length types) uses)) phases st1) (fun st2 =>
+  process_rpc fuel types (number_from (List.length types) uses) st2)).
 
 (* ------------------------------------------------------------------------------------- *)
 (* the whole stage on a project *)
@@ -354,7 +368,7 @@ Definition env_size (e : env) : nat :=
   fold_right (fun (x : bytes * option tree) a => match snd x with Some t => tree_size t | None => O end + a) O (e_types e)
   + fold_right (fun (x : ukind * tree) a => tree_size (snd x) + a) O (e_uses e).
 
-Definition default_fuel (e : env) : nat := 2 * (env_size e) + 2 * List.length (e_types e) + 4.
+Definition default_fuel (e : env) : nat := 3 * (env_size e) + 2 * List.length (e_types e) + 8.
 
 Definition run (e : env) : res world := run_fuel (default_fuel e) e.
 
